@@ -665,10 +665,14 @@ def c12_errors(obs, case=None):
         idx = next((i for i, m in enumerate(obs.msgs) if m is fm), None)
         if idx is None:
             return tags
-        if idx < lab.fault_at[1] - 1:
-            return tags  # status created while replaying
-        grp = fm.kwargs.get("group")
+        grp = (obs.msg_kw[idx] if getattr(obs, "msg_kw", None) else fm.kwargs).get("group")  # as the plan sent it the first time
         waits = [i for i, m in enumerate(obs.msgs) if i > idx and m.command == "wait" and (m.kwargs.get("group") == grp or (m.args and m.args[0] == grp))]
+        if idx < lab.fault_at[1] - 1:
+            # the status was created while the message was being *replayed* after a rewind.  If the plan had already got
+            # past the wait on that group before the rewind, it is not at that yield any more (exempt); if it had not
+            # reached the wait yet, the failure must still surface at that wait.
+            if not waits or waits[0] < lab.fault_at[1] - 1:
+                return tags
         if not thrown:
             if waits and obs.state == "idle" and last["outcome"] == "ret":
                 tags.append("failed-status-never-reached-the-plan")
